@@ -54,6 +54,17 @@ aliases (.svgz .tgz .taz .tz .tbz2 .txz); N names a lexeme of FILES, "ok" = the 
         suffix (ODF, EPUB: package names are IRIs; not OOXML, whose part names are ASCII and must not end in a dot).
     rtf, ppt, xls: pictures have no storage name.
 
+mem, mem2 (the MEMBER STATE of the picture's package member: a ZIP package can list a member - so that an existence test succeeds -
+whose content nevertheless cannot be read; extractors then take their error path, which has to number and describe the picture
+- or leave it out - like the normal path does.  mem is the state of the first picture, mem2 the state of a SECOND picture that
+follows it in the same unit (mem2 "none", the default: the document has one picture); M names a state of MEM)
+    odt, odp, odg, ods, docx, pptx, xlsx, epub: the package is re-written member by member (verif.gen.zipforge), the picture members
+        in state: ok | crc (CRC-32 field does not match the content: the read fails at its end) | method (compression method 99 in
+        the headers: the read fails when the member is opened) | enc (general purpose bit 0 set without any encryption: the read asks
+        for a password) | absent (member not stored: the dangling reference) | thorough also: crc8 (CRC damage on a deflated
+        member) | bz2 (a VALID member compressed with bzip2, method 12).
+    rtf, ppt, xls: pictures are not package members.
+
 Nothing here shares code with the library.  Writers are used as they are; where a writer cannot express the deviation
 (size lexemes of OOXML / RTF, RTF picture kinds, label slots) its output is patched at exactly one place (asserted).
 """
@@ -89,7 +100,12 @@ LAB_ATTR = ["ok", "empty", "ws", "text", "uni", "nl"]                          #
 LAB_ATTR_NAT = ["ok", "absent", "empty", "ws", "text", "uni", "nl"]            # attribute slot the writer fills by itself
 LAB_CAP = ["ok", "empty", "text", "uni", "seq"]                                # caption paragraph around the picture frame (odt)
 LAB_FORMATS = ODF_FORMATS + ("docx", "pptx", "xlsx", "epub")
-DEFAULT = {"kind": "png", "w": "ok", "h": "ok", "uid2": False, "title": "ok", "desc": "ok", "name": "ok", "cap": "ok", "file": "ok"}
+DEFAULT = {"kind": "png", "w": "ok", "h": "ok", "uid2": False, "title": "ok", "desc": "ok", "name": "ok", "cap": "ok", "file": "ok",
+           "mem": "ok", "mem2": "none"}
+MEM = ["ok", "crc", "method", "enc", "absent"]                 # member states (quick)
+MEM_THOROUGH = MEM + ["crc8", "bz2"]
+_MEM_OVERRIDE = {"ok": {}, "crc": {"crc": "bad"}, "method": {"method": 99}, "enc": {"flag_bits": 1}, "crc8": {"method": 8, "crc": "bad"},
+                 "bz2": {"method": 12}}
 # storage names.  MIME_SUFFIXES: the suffixes Python's mimetypes module (the platform MIME table most libraries consult) does not map to a
 # type of their own: encodings_map (compression: the type is the one of the name without the suffix) and suffix_map (aliases)
 MIME_SUFFIXES = [".gz", ".Z", ".bz2", ".xz", ".br", ".svgz", ".tgz", ".taz", ".tz", ".tbz2", ".txz"]
@@ -166,7 +182,10 @@ def valid(fmt, pic):
     lab = labels_of(fmt)
     return (p["kind"] in kinds_of(fmt) and p["w"] in s and p["h"] in s and isinstance(p["uid2"], bool)
             and (not p["uid2"] or fmt in BLIP_FORMATS) and all(p[k] in lab.get(k, ("ok",)) for k in LAB_SLOTS)
-            and (p["file"] == "ok" or p["file"] in files_of(fmt)))
+            and (p["file"] == "ok" or p["file"] in files_of(fmt))
+            and ((p["mem"], p["mem2"]) == ("ok", "none") or (fmt in FILE_FORMATS and p["mem"] in MEM_THOROUGH
+                                                              and p["mem2"] in MEM_THOROUGH + ["none"]
+                                                              and all(p[k] == DEFAULT[k] for k in DEFAULT if k not in ("mem", "mem2")))))
 
 
 # ------------------------------------------------------------------------------------------------ payloads
@@ -454,11 +473,72 @@ def _rename_picture(data: bytes, fmt, new: str) -> bytes:
     return out.getvalue()
 
 
+# ------------------------------------------------------------------------------------------------ member state
+
+def _build_two(fmt, tk):
+    """the document [paragraph, picture 1, paragraph, picture 2] (sheets: two pictures on the first sheet): natural PNG pictures"""
+    images = {"k": (K.png(3, 2, 1), "png"), "k2": (K.png(3, 2, 2), "png")}
+    doc = ["doc", {}, [["unit", [["p", [["t", tk.new("B")]]], ["img", "k"], ["p", [["t", tk.new("B")]]], ["img", "k2"]], {}]]]
+    sheets = [["sheet", tk.new("N"), [[["s", tk.new("C")], ["s", tk.new("C")]], [["s", tk.new("C")], ["i", 5]]]]]
+    if fmt in ODF_FORMATS:
+        from verif.gen import odf
+        if fmt == "ods":
+            return odf.ods(["doc", {}, sheets], images, {"images_at": [[0, "k"], [0, "k2"]]})
+        return getattr(odf, fmt)(doc, images, None)
+    if fmt in ("docx", "pptx", "xlsx"):
+        from verif.gen import ooxml
+        if fmt == "xlsx":
+            return ooxml.xlsx(["doc", {}, sheets], images, {"sheet_images": {0: ["k", "k2"]}})
+        return getattr(ooxml, fmt)(doc, images, None)
+    from verif.gen import htmlfam
+    inner = '<p>%s</p><p><img src="img/k.png" alt="%s"/></p><p>%s</p><p><img src="img/k2.png" alt="%s"/></p>' % (
+        tk.new("B"), tk.new("Z"), tk.new("B"), tk.new("Z"))
+    dc = {"identifier": "urn:verif:c04", "language": "en", "title": "Zttttt"}
+    return htmlfam.epub([htmlfam.xhtml_page(inner, "t")], dc, extra_items=[("img1", "img/k.png", "image/png", images["k"][0]),
+                                                                           ("img2", "img/k2.png", "image/png", images["k2"][0])])
+
+
+def _member_states(data: bytes, fmt, states) -> bytes:
+    """re-write the package member by member (names, order, content, compression kept); the picture member holding payload i
+    (recognised by its content: K.png(3, 2, i + 1)) is written in states[i]"""
+    import zlib
+    from verif.gen import zipforge
+    src = zipfile.ZipFile(io.BytesIO(data))
+    want = {K.png(3, 2, i + 1): st for i, st in enumerate(states)}
+    hit = 0
+    members = []
+    for zi in src.infolist():
+        if zi.is_dir():
+            members.append({"name": zi.filename, "is_dir": True})
+            continue
+        raw = src.read(zi)
+        m = {"name": zi.filename, "data": raw, "method": zi.compress_type, "date_time": zi.date_time, "external_attr": zi.external_attr}
+        if zi.filename.startswith(_PIC_DIR[fmt]) and raw in want:
+            hit += 1
+            st = want[raw]
+            if st == "absent":
+                continue
+            for k_, v in _MEM_OVERRIDE[st].items():
+                m[k_] = ((zlib.crc32(raw) & 0xFFFFFFFF) ^ 0x5A5A5A5A) if v == "bad" else v
+        members.append(m)
+    if hit != len(states):
+        raise ValueError("member state: %d picture members recognised, expected %d" % (hit, len(states)))
+    return zipforge.zipforge(members, None)
+
+
 # ------------------------------------------------------------------------------------------------ builder
 
 def build(fmt, pic, tk):
     """-> {"data", "props": {}, "members": [], "used": [...]}; the document [paragraph, picture]"""
     p = dict(DEFAULT, **pic)
+    if (p["mem"], p["mem2"]) != ("ok", "none"):
+        if p["mem2"] == "none":
+            data = build(fmt, {}, tk)["data"]
+            states = [p["mem"]]
+        else:
+            data = _build_two(fmt, tk)
+            states = [p["mem"], p["mem2"]]
+        return {"data": _member_states(data, fmt, states), "props": {}, "members": [], "used": ["text", "img"]}
     kind = p["kind"]
     body = payload(kind)
     lex = sizes_of(fmt)
@@ -602,4 +682,15 @@ def file_cases(tier, fmt):
         for name in files_of(fmt):
             if name != "ok":
                 out.append(canonical(dict(DEFAULT, kind=k, file=name)))
+    return out
+
+
+def member_cases(tier, fmt):
+    """package formats: one picture in every non-ok member state, and two pictures in every pair of states (not both ok);
+       quick: the states MEM; thorough: MEM_THOROUGH."""
+    if fmt not in FILE_FORMATS:
+        return []
+    st = MEM if tier == "quick" else MEM_THOROUGH
+    out = [canonical(dict(DEFAULT, mem=a)) for a in st if a != "ok"]
+    out += [canonical(dict(DEFAULT, mem=a, mem2=b)) for a in st for b in st if (a, b) != ("ok", "ok")]
     return out
